@@ -111,3 +111,11 @@ def parsed_requests(recs, api=None):
             if api is None or rq["api"] == api:
                 out.append((h, rq))
     return out
+
+
+def maybe_order(rng, spec, p=0.35):
+    """with probability p the reference brokers list topics and partitions in their replies in reversed or shuffled order
+    (the protocol carries names and ids in each entry and promises no order)"""
+    if rng.random() < p:
+        spec["order"] = rng.choice(["reversed", rng.randint(0, 10 ** 6)])
+    return spec
